@@ -299,6 +299,17 @@ func (e *Engine) registerIntrinsics() {
 		}
 		return outs
 	})
+	r("builtin:close", func(c *CallCtx) []Outcome {
+		ch, ok := c.args[0].(ChanV)
+		if !ok || ch.obj == 0 {
+			return c.panicOut("close-of-nil-channel")
+		}
+		if av, ok := c.st.heap.objs[ch.obj].(*ArrayV); ok && len(av.e) == 1 {
+			return c.panicOut("close-of-closed-channel")
+		}
+		c.st.heap.objs[ch.obj] = &ArrayV{e: []Value{tTrue}}
+		return c.ret(nil)
+	})
 	r("builtin:print", func(c *CallCtx) []Outcome { return c.ret(nil) })
 	r("builtin:println", func(c *CallCtx) []Outcome { return c.ret(nil) })
 	r("builtin:copy", func(c *CallCtx) []Outcome {
